@@ -40,19 +40,28 @@ pub struct Case {
 }
 
 pub fn check_case(case: &Case, rc: &RouterConfig) -> (Vec<(String, String)>, u64) {
-    let mut spec = Vec::new();
-    let mut rules: Vec<Rule> = Vec::new();
-    for (i, s) in case.shapes.iter().enumerate() {
-        let rank = rank_of(case.rank_pattern, i);
-        spec.push((IDS[i].to_string(), rank, *s));
-        rules.push(s.to_rule(IDS[i], rank, "/p"));
-    }
+    let c5 = super::c05::Case { shapes: case.shapes.clone(), rank_pattern: case.rank_pattern, sampling_override: Option::None, via_router: false, rotation: 0 };
+    let (spec, rules) = super::c05::build(&c5);
     let req = request_for(rc, "/p", None);
     let routes = routes_of(&rules, rc);
     let mut out = Vec::new();
     let mut evals = 0u64;
     let mut reference: Option<String> = Option::None;
-    let perms = permutations(rules.len());
+    // short lists: every permutation; long lists (count thresholds): identity, reversal, rotations, an interleaving of the halves
+    let n = rules.len();
+    let perms: Vec<Vec<usize>> = if n <= 5 {
+        permutations(n)
+    } else {
+        let id: Vec<usize> = (0..n).collect();
+        let mut v = vec![id.clone(), id.iter().rev().copied().collect()];
+        for k in [1usize, n / 2, n - 1, 64.min(n - 1)] {
+            let mut r = id.clone();
+            r.rotate_left(k);
+            v.push(r);
+        }
+        v.push((0..n).map(|i| if i % 2 == 0 { i / 2 } else { n - 1 - i / 2 }).collect());
+        v
+    };
     for p in &perms {
         // permuted match list
         let permuted: Vec<_> = p.iter().map(|i| routes[*i].clone()).collect();
@@ -121,6 +130,7 @@ pub fn run(tier: Tier) -> i32 {
     for len in 1..=max {
         work.extend(super::c05::lists(&alpha, len));
     }
+    work.extend(super::c05::long_lists());
     let distinct_actions = DistinctSet::new();
     let order_sensitive = DistinctSet::new();
     let samples = Samples::new(5);
@@ -146,7 +156,7 @@ pub fn run(tier: Tier) -> i32 {
             if conflicting {
                 order_sensitive.insert_str(&format!("{shapes:?}{rank_pattern}"));
             }
-            if i % 11 == 0 {
+            if i % 11 == 0 && shapes.len() <= IDS.len() {
                 let mut spec = Vec::new();
                 for (k, s) in shapes.iter().enumerate() {
                     spec.push((IDS[k].to_string(), rank_of(rank_pattern, k), *s));
